@@ -1103,7 +1103,48 @@ func checkStmtTableKeys(c *km.Ctx, rule string) {
 		}
 	}
 	if len(tabs) < 3 {
-		c.R.AnchorLost(rule, sprintf("SQL statement tables of cmd/keymasterd (found %d)", len(tabs)))
+		// one table of records (a struct of statements per database type) instead of one table per statement:
+		// every record names every statement
+		nRec := 0
+		for _, n := range names {
+			g, ok := pk.Members[n].(*ssa.Global)
+			if !ok {
+				continue
+			}
+			mt, ok := g.Type().(*types.Pointer).Elem().Underlying().(*types.Map)
+			if !ok || !types.Identical(mt.Key().Underlying(), types.Typ[types.String]) {
+				continue
+			}
+			rec := structOf(mt.Elem())
+			if rec == nil || rec.NumFields() < 3 {
+				continue
+			}
+			isSQL := false
+			var empty []string
+			for i := 0; i < rec.NumFields(); i++ {
+				if !types.Identical(rec.Field(i).Type().Underlying(), types.Typ[types.String]) {
+					continue
+				}
+				vals := globalTableFieldStrings(c, g, rec.Field(i).Name())
+				for _, v := range vals {
+					if strings.HasPrefix(strings.ToLower(strings.TrimSpace(v)), "select ") || strings.HasPrefix(strings.ToLower(strings.TrimSpace(v)), "insert ") {
+						isSQL = true
+					}
+				}
+				ents, _ := globalTableEntries(c, g)
+				if vals == nil || len(vals) == 0 || (len(ents) > 0 && countFieldSet(c, g, rec.Field(i).Name()) < len(ents)) {
+					empty = append(empty, rec.Field(i).Name())
+				}
+			}
+			if !isSQL {
+				continue
+			}
+			nRec++
+			c.R.Add(rule, "cmd/keymasterd", "statement table "+g.Name(), c.P.Pos(g.Pos()), "every database type's record names every statement", sprintf("statements missing for some type: %v", empty), len(empty) == 0)
+		}
+		if nRec == 0 {
+			c.R.AnchorLost(rule, sprintf("SQL statement tables of cmd/keymasterd (found %d)", len(tabs)))
+		}
 		return
 	}
 	// the database types: the keys most tables have
@@ -1123,4 +1164,34 @@ func checkStmtTableKeys(c *km.Ctx, rule string) {
 		}
 		c.R.Add(rule, "cmd/keymasterd", "statement table "+t.g.Name(), c.P.Pos(t.g.Pos()), sprintf("an entry for each database type %v", want), sprintf("missing=%v", missing), len(missing) == 0)
 	}
+}
+
+// countFieldSet: in how many entries of the package-level table of records the field is set to a non-empty constant.
+func countFieldSet(c *km.Ctx, g *ssa.Global, field string) int {
+	st := singleStoreTo(c, g)
+	if st == nil || g.Pkg == nil {
+		return 0
+	}
+	initFn := g.Pkg.Func("init")
+	if initFn == nil {
+		return 0
+	}
+	m := km.Unwrap(st.Val)
+	n := 0
+	km.Instrs(initFn, func(in ssa.Instruction) {
+		mu, ok := in.(*ssa.MapUpdate)
+		if !ok || km.Unwrap(mu.Map) != m {
+			return
+		}
+		sy := km.SymOf(mu.Value)
+		if sy == nil || sy.Op != "struct" {
+			return
+		}
+		if f, has := sy.Fields[field]; has && f.Op == "const" {
+			if cs, ok := km.ConstString(f.Val); ok && cs != "" {
+				n++
+			}
+		}
+	})
+	return n
 }
